@@ -42,7 +42,7 @@ def generate(tier, seed):
                 d["len_scale"] = float(rng.choice([0.1, 1.0, 37.0])) if rng.random() < 0.6 else d["len_scale"]
                 if rng.random() < 0.3:
                     d["rescale"] = round(float(rng.uniform(0.4, 2.5)), 3)
-                d["nugget"] = 0.0
+                d["nugget"] = float(rng.choice([0.0, 0.0, round(float(rng.uniform(0.1, 1.0)), 3)]))  # (spectrum = var * density whatever the nugget)
                 if name in ("Stable", "TPLStable") and "opt" in d and "alpha" in d["opt"]:
                     d["opt"]["alpha"] = max(d["opt"]["alpha"], 0.5)
                 cases.append(("pair", {"model": d, "cseed": int(rng.integers(1 << 30))}))
@@ -50,6 +50,9 @@ def generate(tier, seed):
                 d2 = int(rng.choice([x for x in common.valid_dims(name) if x != dim] or [dim]))
                 if d2 != dim and name not in ("SuperSpherical", "JBessel", "TPLSimple", "HyperSpherical"):
                     cases.append(("dim_change", {"model": d, "dim2": d2}))
+    for rep in range(3 * n):
+        cases.append(("isolation", {"name": str(rng.choice(["Stable", "Spherical", "Cubic", "Rational", "Gaussian", "TPLStable"])), "dim": int(rng.integers(1, 4)),
+                                    "cseed": int(rng.integers(1 << 30))}))
     # targeted parameter regions: branch switches and parameter combinations that only matter together
     special = []
     for nu in (20.0, 20.0001, 25.0, 30.0):
@@ -196,6 +199,39 @@ def check_pair(ctx, c):
                     ctx.fail(m2,
                              f"{name} {opt} dim {dim} len_scale {d['len_scale']} k*l={kr}: reported {got!r}, transform of the correlation {want!r}")
                     return
+
+
+def check_isolation(ctx, c):
+    """The spectral settings of one model are its own: creating or changing another model (transform resolution, dimension,
+    parameters) leaves the spectrum of an existing model and of later default models untouched."""
+    rng = np.random.default_rng(c["cseed"])
+    name, dim = c["name"], c["dim"]
+    if dim > common.max_valid_dim(name):
+        dim = common.max_valid_dim(name)
+    cls = getattr(gs, name)
+    ks = np.array([0.0, 0.3, 1.0, 2.5])
+    with warnings.catch_warnings():
+        warnings.simplefilter("ignore")
+        with np.errstate(all="ignore"):
+            a = cls(dim=dim, len_scale=1.3)
+            kw0 = dict(a.hankel_kw)
+            sa = np.asarray(a.spectral_density(ks)).copy()
+            # another object with its own transform settings / dimension / parameters, used in between
+            other = getattr(gs, str(rng.choice(["Stable", "Spherical", "Rational"])))(dim=int(rng.integers(1, 4)), hankel_kw={"N": int(rng.choice([20, 50])), "h": 0.01})
+            other.spectral_density(ks)
+            other.hankel_kw = {"N": 33}
+            other.dim = int(rng.integers(1, 4))
+            b = cls(dim=dim, len_scale=1.3)
+            sb = np.asarray(b.spectral_density(ks))
+            sa2 = np.asarray(a.spectral_density(ks))
+    ctx.event("isolation_comparisons", 3)
+    ctx.cell(f"isolation/{name}/dim{dim}")
+    mech = {"what": "model-state-shared-between-objects", "model": name}
+    if dict(a.hankel_kw) != kw0 or dict(b.hankel_kw) != kw0:
+        ctx.fail(dict(mech, part="hankel_kw"), f"hankel_kw of an untouched / a new default model changed: {kw0} -> {dict(a.hankel_kw)} / {dict(b.hankel_kw)} after another model was given its own settings")
+        return
+    if not (np.array_equal(sa, sa2, equal_nan=True) and np.array_equal(sa, sb, equal_nan=True)):
+        ctx.fail(dict(mech, part="spectral_density"), f"spectral density of {name} depends on other models created in between: {sa} / {sa2} / {sb}")
 
 
 def check_distribution(ctx, c):
@@ -346,4 +382,5 @@ def check_dim_change(ctx, c):
         ctx.fail({"what": "has_cdf/has_ppf-after-dim-change", "model": name}, "distribution flags differ from a fresh model")
 
 
-CHECKS = {"pair": check_pair, "distribution": check_distribution, "dim_change": check_dim_change}
+CHECKS = {
+    "isolation": check_isolation,"pair": check_pair, "distribution": check_distribution, "dim_change": check_dim_change}
